@@ -234,8 +234,37 @@ def comm(op):
     return op not in ('-', '/', '%')
 
 
+def left_paren(table, j):
+    """does the real printer parenthesise the left operand of binary node j? (the three-way Binary rule)"""
+    p, pa = json_prec(table, j), json_prec(table, j[2])
+    return False if pa == p else p <= pa
+
+
+def right_paren(table, j):
+    p, pa, pb = json_prec(table, j), json_prec(table, j[2]), json_prec(table, j[3])
+    if pa == p:
+        return p <= pb
+    if pb == p and comm(j[1]):
+        return False
+    return p <= pb
+
+
+def ends_field(table, j):
+    """does the text the real printer produces for j end with a field name?"""
+    k = j[0]
+    if k in ('field', 'method'):
+        return j[3] is None
+    if k == 'bin':
+        return (not right_paren(table, j)) and ends_field(table, j[3])
+    if k == 'un':
+        return (not json_prec(table, j[2]) > json_prec(table, j)) and ends_field(table, j[2])
+    if k == 'lambda':
+        return (not json_prec(table, j[2]) > json_prec(table, j)) and ends_field(table, j[2])
+    return False
+
+
 def node_classes(table, j):
-    """classes of the node itself: subset of {'K1','K2','K3'}"""
+    """classes of the node itself: subset of {'K1','K2','K3','K6'}"""
     out = set()
     if j[0] == 'un' and j[2][0] == 'un':
         out.add('K2')
@@ -250,6 +279,8 @@ def node_classes(table, j):
                 out.add('K3')
             if b[0] == 'bin' and b[1] in ('*', '/', '%'):
                 out.add('K3')
+        if o == '<' and not left_paren(table, j) and ends_field(table, a):
+            out.add('K6')
     return out
 
 
@@ -277,7 +308,7 @@ def tree_classes(table, j):
 
 def known_c08_model(table, e):
     """known_C08 on a model tree (through its JSON form)"""
-    return bool(tree_classes(table, to_json(e)) & {'K1', 'K2', 'K3'})
+    return bool(tree_classes(table, to_json(e)) & {'K1', 'K2', 'K3', 'K6'})
 
 
 # ----------------------------------------------------------------------------------------------------------------------
@@ -501,11 +532,18 @@ class ModGen:
         rng = self.rng
         out = []
         mods = rng.shuffle(['std.list', 'std.option', 'a.b.C', 'zeta.Y', 'alpha'])[:rng.below(4)]
+        pool = rng.shuffle(['List', 'Option', 'Zed', 'Abc', 'Pair', 'Extra', 'More', 'Tree', 'Cmp', 'Base', 'Other'])
+        dup = 'K7' not in self.avoid
         for m in mods:
-            names = rng.shuffle(['List', 'Option', 'Zed', 'Abc', 'Pair'])[:rng.range(1, 3)]
+            k = rng.range(1, 3)
+            if dup:
+                names = rng.shuffle(['List', 'Option', 'Zed', 'Abc', 'Pair'])[:k]
+            else:
+                names, pool = pool[:k], pool[k:]
             out.append('import { %s } from %s%s' % (', '.join(names), m, rng.pick([';', ';', ''])))
-            if rng.chance(1, 4):
-                out.append('import { %s } from %s;' % (rng.pick(['Extra', 'More']), m))
+            if rng.chance(1, 4) and (dup or pool):
+                extra = rng.pick(['Extra', 'More']) if dup else pool.pop()
+                out.append('import { %s } from %s;' % (extra, m))
         for _ in range(rng.range(1, 3)):
             if rng.chance(1, 4):
                 ms = [self.member(depth, True) for _ in range(rng.below(3))]
@@ -531,7 +569,7 @@ class ModGen:
 
 def gen_module(rng, depth=3, avoid=None):
     if avoid is None:
-        avoid = set() if rng.chance(1, 5) else {'K4'}
+        avoid = set() if rng.chance(1, 6) else ({'K4', 'K7'} if rng.chance(4, 5) else {'K7'})
     return ModGen(rng, avoid).module(depth)
 
 
